@@ -24,6 +24,7 @@ SHAPES = [
     ("rewire", [[1, 1]], False, Q, dict(params=dict(m=1))), ("rewire", [[1, 0]], False, Q, dict(params=dict(m=2), budget=600, shard=5)),
     ("remap_uri", [[0, 1]], False, Q, dict(params=dict(m=2), budget=600, shard=5)), ("rewire", [[0, 0], [0, 0]], False, Q, dict(params=dict(m=2), budget=600, shard=6)),
     ("rewire", [[1, 0], [0, 1]], False, Q, dict(params=dict(m=1), budget=600, shard=5)),
+    ("remap_uri", [[0, 1]], False, Q, dict(params=dict(m=1, twice=True))), ("rewire", [[1, 1]], False, Q, dict(params=dict(m=1, twice=True))),
     ("remap_uri", [[0, 0], [0, 0]], False, Q, dict(params=dict(m=1, warm=True))), ("rewire", [[0, 0], [0, 0]], False, Q, dict(params=dict(m=1, warm=True))),
     ("remap_uri", [[1, 1], [0, 1]], False, T, dict(params=dict(m=2), budget=3000, shard=9)),
     ("remap_uri", [[0, 0]] * 3, False, T, dict(params=dict(m=2), budget=3000, shard=9)),
@@ -60,6 +61,12 @@ def build(job):
         eng.assume(distinct(vals))
         mapping = eng.mkdict(list(zip(keys, vals)))
         transitive = Or([_s(k) == _s(v) for k in keys for v in vals])
+        if params.get("twice"):
+            # the same call has been made on the same converter before; its result was discarded
+            try:
+                rec.remap_uri_prefixes(c, mapping) if fn == "remap_uri" else rec.rewire(c, mapping)
+            except (NotImplementedError, ValueError):
+                pass
         try:
             c2 = rec.remap_uri_prefixes(c, mapping) if fn == "remap_uri" else rec.rewire(c, mapping)
         except NotImplementedError as e:
